@@ -8,7 +8,7 @@ from ..cfg import NORMAL, Node, handler_classes
 from ..core import Ctx
 from ..flow import ALL, find_path, names_in
 from ..model import AnalysisError, FunctionInfo, dotted, norm_text
-from .common import edge_target, handler_exits, handler_nodes, in_handler, kwarg, reachable_from
+from .common import effective_compare, edge_target, handler_exits, handler_nodes, in_handler, kwarg, reachable_from
 
 EXPLANATION = (
     "Static analysis of file_lock.py / lock_provider.py: (R1) every exclusive flock / msvcrt.locking attempt carries the "
@@ -56,15 +56,33 @@ def r1(ctx: Ctx, rid: str = "C19.R1") -> None:
 
 
 def _deadline_branches(ctx: Ctx, f: FunctionInfo) -> List[Node]:
+    """Branches comparing a clock-derived value with a limit derived from the configured timeout, whose 'clock is past the
+    limit' edge raises TimeoutError.  Found by data flow (the elapsed time / the deadline may live in local variables)."""
     g = ctx.cfg(f)
+    sl = ctx.slicer(f)
     out = []
+
+    def clock(org) -> bool:
+        return any(isinstance(c, ast.Call) and (dotted(c.func) or "") in ("time.time", "time.monotonic", "time.perf_counter") for c in org["calls"])
+
+    def limit(org) -> bool:
+        return any("timeout" in nm for nm in org["names"])
+
     for b in g.nodes:
-        if b.kind != "branch" or not isinstance(b.ast, ast.Compare):
+        if b.kind != "branch" or b.id not in g.reachable():
             continue
-        t = norm_text(b.ast)
-        if not ("time." in t and any(isinstance(o, (ast.GtE, ast.Gt)) for o in b.ast.ops)):
+        ec = effective_compare(ctx, f, b)
+        if ec is None or len(ec[0].ops) != 1 or not isinstance(ec[0].ops[0], (ast.Gt, ast.GtE, ast.Lt, ast.LtE)):
             continue
-        tt = edge_target(g, b, "true")
+        lo, ro = sl.origins(ec[0].left, ec[1]), sl.origins(ec[0].comparators[0], ec[1])
+        gt = isinstance(ec[0].ops[0], (ast.Gt, ast.GtE))
+        if clock(lo) and limit(ro) and not limit(lo):
+            past_lab = "true" if gt else "false"
+        elif clock(ro) and limit(lo) and not limit(ro):
+            past_lab = "false" if gt else "true"
+        else:
+            continue
+        tt = edge_target(g, b, past_lab)
         if tt is None:
             continue
         reach = reachable_from(g, tt, NORMAL, avoid=[n.id for n in g.nodes if n.kind == "loop_head"])
@@ -93,8 +111,7 @@ def r2(ctx: Ctx) -> None:
             ctx.ob("C19.R2", f, "no cycle of the acquire loop avoids the deadline test", h, bool(dl) and w is None,
                    "a blocked acquirer fails with TimeoutError instead of spinning forever", witness=ctx.path_witness(f, w))
         # the deadline is derived from the configured timeout
-        ok = any("timeout" in norm_text(b.ast) or any("timeout" in norm_text(g.nodes[d].ast) for nm in names_in(b.ast)
-                 for d in ctx.rd(f).reaching(b.id, nm) if g.nodes[d].ast is not None) for b in dl)
+        ok = bool(dl)  # _deadline_branches only accepts limits derived from the configured timeout
         ctx.ob("C19.R2", f, "the deadline derives from self.timeout", dl[0] if dl else None, ok, "configured timeout is honoured")
     for f in lock_functions(ctx):
         for n in ctx.cfg(f).calls():
@@ -111,6 +128,18 @@ def r2(ctx: Ctx) -> None:
                 ctx.ob("C19.R2", f, "bounded wait/join", n, bounded, "Event.wait / Thread.join carry a timeout", nontrivial=False)
 
 
+def takeover_is_acquire(ctx: Ctx, rid: str) -> None:
+    """Shared with C03 (a crash while holding the lock must not wedge the table)."""
+    ta = ctx.fn("lock_provider.S3LockProvider._try_acquire")
+    tag = ctx.cfg(ta)
+    tcalls = [n for n in tag.calls() if any(t.name == "_try_takeover_expired" for t in ctx.eff.callees(ta, n))]
+    returned = [n for n in tcalls if isinstance(n.stmt, ast.Return)]
+    ctx.ob(rid, ta, "taking over an expired lock IS acquiring it (the takeover's result is _try_acquire's result)",
+           tcalls[0] if tcalls else None, bool(returned),
+           "if the takeover happens elsewhere and its result is dropped, acquire() can never succeed after a holder died: the table "
+           "accepts no commit until manual cleanup")
+
+
 def r3(ctx: Ctx, rid: str) -> None:
     ctx.rule(rid, "S3 lock mutations are compare-and-swap: every put_object of S3LockProvider is conditional; takeover is guarded "
              "by the lease age from the same head_object response as its IfMatch ETag", 4)
@@ -125,14 +154,7 @@ def r3(ctx: Ctx, rid: str) -> None:
                    nontrivial=False)
     if n_put < 3:
         raise AnalysisError(f"S3LockProvider has {n_put} put_object sites, expected create/takeover/renew")
-    ta = ctx.fn("lock_provider.S3LockProvider._try_acquire")
-    tag = ctx.cfg(ta)
-    tcalls = [n for n in tag.calls() if any(t.name == "_try_takeover_expired" for t in ctx.eff.callees(ta, n))]
-    returned = [n for n in tcalls if isinstance(n.stmt, ast.Return)]
-    ctx.ob(rid, ta, "taking over an expired lock IS acquiring it (the takeover's result is _try_acquire's result)",
-           tcalls[0] if tcalls else None, bool(returned),
-           "if the takeover happens elsewhere and its result is dropped, acquire() can never succeed after a holder died: the table "
-           "accepts no commit until manual cleanup")
+    takeover_is_acquire(ctx, rid)
     tk = ctx.fn("lock_provider.S3LockProvider._try_takeover_expired")
     g = ctx.cfg(tk)
     sl = ctx.slicer(tk)
